@@ -361,12 +361,12 @@ impl Monitor for C09 {
         "C09"
     }
     fn plan(&self, cfg: &Cfg) -> u64 {
-        (9 * ns(cfg).len()) as u64 * cfg.tier.pick(6, 12) + cfg.tier.pick(60, 1000)
+        (9 * ns(cfg).len()) as u64 * cfg.tier.pick(6, 40) + cfg.tier.pick(60, 4000)
     }
     fn trial(&self, cfg: &Cfg, idx: u64, out: &mut TrialOut) {
         let nl = ns(cfg);
         let mut rng = Rng::for_trial(cfg.seed, "C09", idx);
-        let main = (9 * nl.len()) as u64 * cfg.tier.pick(6, 12);
+        let main = (9 * nl.len()) as u64 * cfg.tier.pick(6, 40);
         if idx >= main {
             // chain of two recursive views: bounded-input run, finite and below the composed bound
             let v1 = view(rng.usize(0, 4), rng.usize(2, 12), &mut rng);
